@@ -14,6 +14,13 @@
 (*   all classes whatever their metaclass.  The field exists so that model   *)
 (*   trees / recorded trees name such classes and the real-code side builds  *)
 (*   them.                                                                   *)
+(*   T.real[n] names the REAL library class a node stands for: "BaseImage",   *)
+(*   "GraphicsImage" (abstract ancestors), "style" (the concrete class of    *)
+(*   the family under test), "other" (the concrete class of the other        *)
+(*   graphics family, a sibling under GraphicsImage), "" = a user subclass   *)
+(*   or an instance.  forced_support is settable and readable on ALL of      *)
+(*   them (it is a BaseImage property: "descendant"); the other settings     *)
+(*   exist only at the style class and below.                                *)
 (*   T.fl[n] = 1: class n defines `__len__` returning 0, so its instances    *)
 (*   (and those of its subclasses) are FALSY objects.  Likewise read by no   *)
 (*   operator: an instance-level set / unset stays instance-level and an     *)
@@ -70,14 +77,28 @@ Valid(fam, set, a) ==
 Nodes(T) == 1..Len(T.par)
 IsClass(T, n) == n <= T.nc
 
+Abstract(T, n) == T.real[n] \in {"BaseImage", "GraphicsImage"}
+StyleNode(T) == CHOOSE n \in Nodes(T) : T.real[n] = "style"
+
 WellFormedTree(T) ==
   /\ T.nc >= 1 /\ T.nc <= Len(T.par)
   /\ T.par[1] = 0
   /\ \A n \in 2..Len(T.par) : T.par[n] \in 1..(n - 1) /\ IsClass(T, T.par[n])
   /\ Len(T.dm) = Len(T.par)
-  /\ \A n \in 1..Len(T.par) : T.dm[n] \in {0, 1} /\ (T.dm[n] = 1 => n # 1 /\ IsClass(T, n))
+  /\ \A n \in 1..Len(T.par) : T.dm[n] \in {0, 1} /\ (T.dm[n] = 1 => T.real[n] = "" /\ IsClass(T, n))
   /\ Len(T.fl) = Len(T.par)
-  /\ \A n \in 1..Len(T.par) : T.fl[n] \in {0, 1} /\ (T.fl[n] = 1 => n # 1 /\ IsClass(T, n))
+  /\ \A n \in 1..Len(T.par) : T.fl[n] \in {0, 1} /\ (T.fl[n] = 1 => T.real[n] = "" /\ IsClass(T, n))
+  /\ Len(T.real) = Len(T.par)
+  /\ Cardinality({n \in Nodes(T) : T.real[n] = "style"}) = 1
+  /\ \A n \in Nodes(T) :
+       /\ T.real[n] \in {"BaseImage", "GraphicsImage", "style", "other", ""}
+       /\ T.real[n] # "" => IsClass(T, n)
+       /\ T.real[n] = "BaseImage" => T.par[n] = 0
+       /\ T.real[n] = "GraphicsImage" => T.par[n] = 0 \/ T.real[T.par[n]] = "BaseImage"
+       /\ T.real[n] \in {"style", "other"} => T.par[n] = 0 \/ T.real[T.par[n]] = "GraphicsImage"
+       \* user classes and instances live at / below the style class
+       /\ T.real[n] = "" => T.par[n] # 0 /\ T.real[T.par[n]] \in {"style", ""}
+  /\ Cardinality({n \in Nodes(T) : T.real[n] = "other"}) <= 1
 
 RECURSIVE Anc(_, _)
 Anc(T, n) == IF T.par[n] = 0 THEN {} ELSE {T.par[n]} \cup Anc(T, T.par[n])
@@ -164,8 +185,12 @@ WellFormedGeo(g) ==
 
 \* the observable projection of the effective value (the render method has no getter:
 \* it is observed through the framing of an actual render without override)
+\* forced_support applies everywhere; the other settings at the style class and below
+Applies(T, fam, set, n) ==
+  set \in SettingsOf(fam) /\ (set = "fs" \/ n = StyleNode(T) \/ StyleNode(T) \in Anc(T, n))
+
 ObsEff(T, fam, S, set, n) ==
-  IF set \notin SettingsOf(fam) THEN NA
+  IF ~Applies(T, fam, set, n) THEN NA
   ELSE IF set = "rm" THEN StrV(FrameOf(Eff(T, S, set, n).s))
   ELSE Eff(T, S, set, n)
 
@@ -176,8 +201,17 @@ ObsDefault(fam, set) ==
 \* forced support observed through its effect: can the class be instantiated when the
 \* active terminal does not support the style?
 Gate(T, S, n) ==
-  IF ~IsClass(T, n) THEN "na"
+  IF ~IsClass(T, n) \/ Abstract(T, n) THEN "na"
   ELSE IF Eff(T, S, "fs", n) = BoolV(TRUE) THEN "open" ELSE "shut"
+
+\* ... and through clear() of the invoking class on such a terminal: KittyImage.clear() "does
+\* nothing if the render style is not supported" unless support is forced for THAT class;
+\* ITerm2Image.clear() "works only on Konsole" whatever is forced
+OtherFam(fam) == IF fam = "kitty" THEN "iterm2" ELSE "kitty"
+ClearObs(T, fam, S, n) ==
+  IF ~IsClass(T, n) \/ Abstract(T, n) THEN "na"
+  ELSE LET f == IF T.real[n] = "other" THEN OtherFam(fam) ELSE fam IN
+       IF f = "kitty" /\ Eff(T, S, "fs", n) = BoolV(TRUE) THEN "emits" ELSE "silent"
 
 Weight(S, set) == Cardinality({n \in DOMAIN S[set] : S[set][n] # Unset})
 =============================================================================
